@@ -19,9 +19,14 @@ def run_family(ctx, family, n, oracle, stream=None, known_hang=None):
                            "control": sc.get("control") or [r.get("end") for r in sc.get("runs", [])]}, nontrivial)
         ctx.tally("events", len(tr[1]))
         ctx.tally("payloads", len(sc.get("payloads", [])))
+        if out.get("retried"):
+            ctx.tally("worker-retried")
         if out.get("crashed"):
-            ctx.tally("worker-crashed")
-            # a worker that produced nothing is an inconclusive run of the harness, not a finding
+            ctx.tally("worker-killed")
+            # twice in a row the scenario process produced nothing and had to be killed: its own
+            # watchdog did not even get to dump the log - the run never ended
+            ctx.violation("never-ends:process-killed", "the scenario process hung and had to be killed twice (%s)" % str(out.get("crashed"))[-200:],
+                          {"scenario": sc})
             continue
         for key, what in oracle(sc, out):
             ctx.violation(key, what, {"scenario": sc, "trace": tr[1]})
